@@ -8,6 +8,7 @@ F = 'purl/src/qualifiers/well_known.rs'
 GROUP = dict(
     name='cksum',
     theory=['base.rs', 'split.rs'],
+    rlimit=30,
     uses='use core::cmp::Ordering;',
     canary='    axiom_string_from(); broadcast use axiom_ascii_to_lower; axiom_utf8_len_ascii(seq![\'a\']);',
     units=[_c.PURL_FIELD, _c.PARSE_ERROR, _c.QUALIFIER_KEY,
@@ -15,6 +16,7 @@ GROUP = dict(
            dict(id='theory.cow', kind='raw', text=_c.theory_text('types.rs').split('// ---- vocabulary for package types')[0]),
            dict(id='theory.cksum', kind='raw', text=_c.theory_text('cksum.rs')),
            dict(id='T.Checksum', kind='struct', name='Checksum', file=F),
+           _c.contract_only('lib_lower', 'U-lower.copy_as_lowercase'),
            dict(id='spec.Checksum', kind='raw', text='''
 impl<'a> Checksum<'a> {
     /// the entries: lower-cased algorithm -> hex text as written
@@ -28,43 +30,42 @@ impl<'a> Checksum<'a> {
                          "fn checksum_to_text<'a>(value: Checksum<'a>) -> Result<SmallString, ParseError>", 1)],
                 contract='''    ensures match r {
         // refused exactly when some entry is not an even number of hex digits
-        Err(e) => e == ParseError::InvalidQualifier
-            && exists|k: Seq<char>| value.entries().contains_key(k) && !hex_ok(#[trigger] value.entries()[k]),
-        // otherwise: the entries in strictly ascending algorithm order, lower-case hex -- for EVERY order in which the map yields them
-        Ok(t) => (forall|k: Seq<char>| value.entries().contains_key(k) ==> hex_ok(#[trigger] value.entries()[k]))
-            && exists|es: Entries<'a>| #[trigger] is_listing(es, value.entries()) && sorted_by_key(es) && t@ == listing_text(es),
+        Err(e) => e == ParseError::InvalidQualifier && !all_values_hex(value.entries()),
+        // otherwise: the entries in strictly ascending algorithm order, lower-case hex -- one text, for EVERY order in which the map yields them
+        Ok(t) => all_values_hex(value.entries()) && t@ == canon_text(value.entries()),
     }''',
                 begin='    proof { axiom_string_from(); }\n    let ghost m = value.entries();',
                 rw=[('R5', r'value\.algorithms\.into_iter\(\)\.collect\(\)', 'x_hm_into_vec(value.algorithms)', 1),
                     ('R5', r'algorithms\.sort_unstable_by\(\|a, b\| a\.0\.cmp\(&b\.0\)\);', 'x_sort_by_key0(&mut algorithms);', 1),
                     ('R5', r'algorithms\.iter\(\)\.map\(\|\(k, v\)\| k\.len\(\) \+ 1 \+ v\.len\(\)\)\.sum::<usize>\(\)', 'x_sum_entry_lens(&algorithms)', '*'),
-                    ('R10', r'for \(algorithm, bytes\) in algorithms', 'let ghost es = algorithms@;\n    for (algorithm, bytes) in it: algorithms', 1),
+                    ('R10', r'for \(algorithm, bytes\) in algorithms', 'let ghost xs = algorithms@;\n    let ghost es = ev(xs);\n    for (algorithm, bytes) in it: algorithms', 1),
                     ('R5', '@all_any', ''),
                     ('R3', r'bytes\.len\(\)', 'x_str_len(&bytes)', '*'),
                     ('R3', r'v\.extend\(bytes\.chars\(\)\.map\(\|c\| c\.to_ascii_lowercase\(\)\)\);', 'x_extend_ascii_lower(&mut v, &bytes);', '*'),
                     ],
                 hints=[(r'let mut algorithms: Vec<_> = x_hm_into_vec\(value\.algorithms\);', 'after', '    let ghost before = algorithms@;'),
                        (r'x_sort_by_key0\(&mut algorithms\);', 'after', '''    proof {
-        lemma_sorted_listing(before, algorithms@, m);
+        lemma_sorted_listing(ev(before), ev(algorithms@), m);
     }'''),
                        (r'return Err\(ParseError::InvalidQualifier\);', 'before', '''                proof {
                     if forall|i: int| 0 <= i < bytes@.len() ==> ascii_hex_c(#[trigger] bytes@[i]) { lemma_hex_is_ascii(bytes@); }
-                    assert(bytes@ == es[it.index@ as int].1@);
+                    assert(bytes@ == es[it.index@ as int].1 && algorithm@ == es[it.index@ as int].0);
                     lemma_bad_entry(es, m, it.index@ as int);
                 }'''),
                        (r'if !v\.is_empty\(\) \{', 'before', '''            proof {
                 lemma_hex_is_ascii(bytes@);
+                assert(bytes@ == es[it.index@ as int].1 && algorithm@ == es[it.index@ as int].0);
                 lemma_listing_text_step(es, it.index@ as int);
                 lemma_listing_text_nonempty_iff(es.take(it.index@ as int));
                 if it.index@ > 0 { lemma_listing_text_step(es, it.index@ - 1); }
             }'''),
-                       (r'Ok\(SmallString::from\(v\)\)', 'before', '    proof { lemma_all_ok(es, m); assert(es.take(es.len() as int) == es); }'),
+                       (r'Ok\(SmallString::from\(v\)\)', 'before', '    proof { lemma_all_ok(es, m); assert(es.take(es.len() as int) == es); lemma_canon_listing(es, m); }'),
                        ],
                 loops={0: '''
         invariant
-            it.seq() == es, m == value.entries(), is_listing(es, m), sorted_by_key(es),
+            it.seq() == xs, es == ev(xs), m == value.entries(), is_listing(es, m), sorted_by_key(es),
             v@ == listing_text(es.take(it.index@ as int)),
-            forall|i: int| 0 <= i < it.index@ ==> hex_ok(#[trigger] es[i].1@),
+            forall|i: int| 0 <= i < it.index@ ==> hex_ok(#[trigger] es[i].1),
 ''', 1: '''
         invariant_except_break !any_hit0,
             forall|i: int| 0 <= i < it.index@ ==> ascii_hex_c(#[trigger] bytes@[i]),
@@ -73,6 +74,36 @@ impl<'a> Checksum<'a> {
             any_hit0 ==> exists|i: int| 0 <= i < bytes@.len() && !ascii_hex_c(#[trigger] bytes@[i]),
             !any_hit0 ==> forall|i: int| 0 <= i < bytes@.len() ==> ascii_hex_c(#[trigger] bytes@[i]),
 '''},
+                ),
+           # R2: `impl TryFrom<&'a str> for Checksum<'a> { fn try_from }` hoisted to a free function
+           dict(id='U-ckparse.checksum_from_text', file=F, fn='try_from', ctx=r"impl<'a> TryFrom<&'a str> for Checksum<'a>",
+                properties=['C12', 'C05', 'C06'],
+                attrs='#[verifier::loop_isolation(false)]',
+                sig_rw=[('R2', r"fn try_from\(value: &'a str\) -> Result<Self, Self::Error>",
+                         "fn checksum_from_text<'a>(value: &'a str) -> Result<Checksum<'a>, ParseError>", 1)],
+                contract='''    ensures match r {
+        Ok(c) => ck_parse(value@) == Some(c.entries()),
+        Err(e) => e == ParseError::InvalidQualifier && ck_parse(value@) is None,
+    }''',
+                rw=[('R3', r"HashMap::with_capacity\(value\.chars\(\)\.filter\(\|c\| \*c == ','\)\.count\(\) \+ 1\)", "x_hm_with_capacity(x_count_char(value, ',') + 1)", '*'),
+                    ('R3', r"for hash in value\.split\(','\)", "let pieces = x_split(value, ',');\n    let ghost ps = split_spec(value@, ',');\n    for hash in it: pieces", 1),
+                    ('R3', r"hash\.rsplit_once\(':'\)", "x_rsplit_once(hash, ':')", '*'),
+                    ('R3', r'algorithms\.insert\(algorithm, Cow::Borrowed\(bytes\)\)', 'x_hm_insert(&mut algorithms, algorithm, Cow::Borrowed(bytes))', '*'),
+                    ('R0', r'Ok\(Self \{ algorithms \}\)', 'Ok(Checksum { algorithms })', '*'),
+                    ],
+                loops={0: '''
+        invariant
+            it.seq() == pieces@, pieces@.len() == ps.len(),
+            forall|i: int| 0 <= i < pieces@.len() ==> (#[trigger] pieces@[i])@ == ps[i],
+            ck_fold(ps.take(it.index@ as int)) == Some(hm_view(algorithms)),
+'''},
+                hints=[(r'let Some\(\(algorithm, bytes\)\)', 'before', '''        proof {
+            assert(hash@ == ps[it.index@ as int]);
+            assert(ps.take(it.index@ + 1).drop_last() == ps.take(it.index@ as int));
+            assert(ps.take(it.index@ + 1).last() == hash@);
+            if ck_fold(ps.take(it.index@ + 1)) is None { lemma_ck_fold_none(ps, it.index@ + 1); }
+        }'''),
+                       (r'Ok\(Checksum \{ algorithms \}\)', 'before', '    proof { assert(ps.take(ps.len() as int) == ps); }')],
                 ),
     ],
 )
